@@ -109,10 +109,20 @@ def loops_over(fns: Sequence[FuncInfo], suffix: str) -> List[Tuple[FuncInfo, ast
                     base = base.args[0]
                 while isinstance(base, ast.Subscript):
                     base = base.value
-                p = ap(base)
+                p = alias_path(f.node, base)
                 if p and p.endswith(suffix):
                     out.append((f, n))
     return out
+
+
+def alias_path(fn_node, expr) -> Optional[str]:
+    """Access path of an expression; a bare local that is assigned exactly once from an access path stands for it."""
+    p = ap(expr)
+    if p and "." not in p and fn_node is not None:
+        vals = [s_.value for s_ in stores(fn_node, into_defs=False) if s_.path == p and s_.kind == "assign"]
+        if len(vals) == 1 and vals[0] is not None and ap(vals[0]) and "." in ap(vals[0]):
+            return ap(vals[0])
+    return p
 
 
 def spec_symbol(node) -> Optional[str]:
@@ -164,9 +174,21 @@ def const_of(repo, mod, node):
 
 def has_eq_fact(node, left_suffix: str, right_text: str, stop=None, polarity=True) -> bool:
     """A dominating condition `<...left_suffix> == <right_text>` (polarity) holds at node."""
+    fn = stop
+    if fn is None:
+        from ..core import enclosing_fn
+        fn = enclosing_fn(node)
+
+    def through_alias(p_):
+        """a bare local that is assigned exactly once from an access path stands for that path"""
+        if p_ and "." not in p_ and fn is not None:
+            vals = [s_.value for s_ in stores(fn, into_defs=False) if s_.path == p_ and s_.kind == "assign"]
+            if len(vals) == 1 and vals[0] is not None and ap(vals[0]) and "." in ap(vals[0]):
+                return ap(vals[0])
+        return p_
     for e, pol in facts(node, stop):
         if isinstance(e, ast.Compare) and len(e.ops) == 1:
-            l, r = ap(e.left) or "", ap(e.comparators[0]) or ""
+            l, r = through_alias(ap(e.left) or ""), through_alias(ap(e.comparators[0]) or "")
             if isinstance(e.ops[0], ast.Eq) and pol == polarity or isinstance(e.ops[0], ast.NotEq) and pol != polarity:
                 if (l.endswith(left_suffix) and r.endswith(right_text)) or (r.endswith(left_suffix) and l.endswith(right_text)):
                     return True
@@ -429,6 +451,54 @@ def _simple_arg(e) -> bool:
 _INLINE_CACHE = {}
 
 
+def always_exits_(stmts) -> bool:
+    from ..core import always_exits
+    return always_exits(stmts)
+
+
+def _contains_return(st) -> bool:
+    return any(isinstance(x, ast.Return) for x in walk(st))
+
+
+def _returns_only_under_ifs(stmts) -> bool:
+    for st in stmts:
+        if isinstance(st, ast.Return):
+            continue
+        if isinstance(st, ast.If):
+            if not (_returns_only_under_ifs(st.body) and _returns_only_under_ifs(st.orelse)):
+                return False
+        elif _contains_return(st):
+            return False
+    return True
+
+
+def _eliminate_returns(stmts, on_return):
+    """Restructure a statement list whose `return`s sit only under ifs into return-free code: what followed
+    an `if` that returned on one branch moves into the other branch.  Returns (statements, always_returned)."""
+    out = []
+    for i, st in enumerate(stmts):
+        if isinstance(st, ast.Return):
+            out.extend(on_return(st))
+            return out, True
+        if isinstance(st, ast.If) and _contains_return(st):
+            rest = stmts[i + 1:]
+            body, b_exit = _eliminate_returns(st.body, on_return)
+            orelse, o_exit = _eliminate_returns(st.orelse, on_return)
+            if not b_exit:
+                more, b_exit = _eliminate_returns(clone_ast(rest) if not o_exit else rest, on_return)
+                body += more
+            if not o_exit:
+                more, o_exit = _eliminate_returns(rest, on_return)
+                orelse += more
+            new_if = ast.copy_location(ast.If(test=st.test, body=body or [ast.copy_location(ast.Pass(), st)],
+                                              orelse=orelse), st)
+            new_if._src_mod = getattr(st, "_src_mod", None)
+            out.append(new_if)
+            return out, b_exit and o_exit
+        out.append(st)
+    return out, False
+
+
 def collaborator_class(repo: Repo, ci, attr: str):
     """Class of the object a class keeps in `self.<attr>`: the one its __init__ (MRO) constructs there."""
     init = repo.lookup_method(ci, "__init__") if ci is not None else None
@@ -478,7 +548,10 @@ def inline_self_calls(repo: Repo, fi: FuncInfo, depth=2, _stack=(), keep=frozens
             if not (isinstance(f, ast.Attribute) and isinstance(f.value, ast.Name) and f.value.id == selfname):
                 return None
             h = repo.lookup_method(fi.cls, f.attr)
-            if f.attr in keep or h is None or h == fi or h.full in _stack or h.node.decorator_list:
+            if f.attr in keep or h is None or h == fi or h.full in _stack:
+                return None
+            decos = [ap(d) for d in h.node.decorator_list]
+            if decos and decos != ["staticmethod"]:
                 return None
             h._recv_expr = None
             return h
@@ -506,21 +579,23 @@ def inline_self_calls(repo: Repo, fi: FuncInfo, depth=2, _stack=(), keep=frozens
             for x in walk(h.node, into_defs=True):
                 if isinstance(x, (ast.Global, ast.Nonlocal, ast.Import, ast.ImportFrom, ast.Yield, ast.YieldFrom)):
                     return None
-            rets = [x for x in walk(h.node) if isinstance(x, ast.Return)]
-            if len(rets) > 1 or (rets and rets[0] is not h.node.body[-1]):
-                return None
             recv_expr = getattr(h, "_recv_expr", None)
             hfn = inline_self_calls(repo, h, depth - 1, _stack + (fi.full,), keep, collaborators)
             body = list(hfn.body)
             if body and isinstance(body[0], ast.Expr) and isinstance(body[0].value, ast.Constant) \
                     and isinstance(body[0].value.value, str):
                 body = body[1:]
+            rets = [x for b_ in body for x in walk(b_) if isinstance(x, ast.Return)]
+            simple = len(rets) <= 1 and (not rets or (body and rets[0] is body[-1]))
+            if not simple and not _returns_only_under_ifs(body):
+                return None     # a return inside a loop / try / with cannot be restructured
             tail = None
-            if body and isinstance(body[-1], ast.Return):
+            if simple and body and isinstance(body[-1], ast.Return):
                 tail = body[-1].value
                 body = body[:-1]
             # parameters
-            params = [p.arg for p in (hfn.args.posonlyargs + hfn.args.args)][1:]
+            is_static = [ap(d) for d in h.node.decorator_list] == ["staticmethod"]
+            params = [p.arg for p in (hfn.args.posonlyargs + hfn.args.args)][0 if is_static else 1:]
             pos_defaults = dict(zip(reversed(params), reversed(hfn.args.defaults)))
             kwonly = [p.arg for p in hfn.args.kwonlyargs]
             kw_defaults = {p: d for p, d in zip(kwonly, hfn.args.kw_defaults) if d is not None}
@@ -549,8 +624,9 @@ def inline_self_calls(repo: Repo, fi: FuncInfo, depth=2, _stack=(), keep=frozens
                     elif isinstance(x, ast.ExceptHandler) and x.name:
                         stored.add(x.name)
             stored.discard(selfname)
-            hself = hfn.args.args[0].arg if hfn.args.args else selfname
-            stored.discard(hself)
+            hself = hfn.args.args[0].arg if hfn.args.args and not is_static else selfname
+            if not is_static:
+                stored.discard(hself)
             mapping, rename, prologue = {}, {n: pre + n for n in stored}, []
             if recv_expr is not None:
                 mapping[hself] = recv_expr
@@ -566,7 +642,25 @@ def inline_self_calls(repo: Repo, fi: FuncInfo, depth=2, _stack=(), keep=frozens
             new_body = [sub.visit(b) for b in body]
             tail_e = sub.visit(tail) if tail is not None else None
             out = prologue + new_body
-            if ctxkind == "expr":
+            if not simple:
+                if ctxkind == "return":     # the helper's own returns leave the caller just the same
+                    if not always_exits_(new_body):
+                        out.append(ast.copy_location(ast.Return(value=ast.Constant(value=None)), st))
+                else:
+                    def on_return(r):
+                        if ctxkind == "assign":
+                            return [ast.copy_location(ast.Assign(
+                                targets=[clone_ast(target)],
+                                value=r.value if r.value is not None else ast.Constant(value=None)), r)]
+                        if r.value is not None and any(isinstance(x, ast.Call) for x in ast.walk(r.value)):
+                            return [ast.copy_location(ast.Expr(value=r.value), r)]
+                        return []
+                    restructured, exited = _eliminate_returns(new_body, on_return)
+                    if ctxkind == "assign" and not exited:
+                        restructured.append(ast.copy_location(ast.Assign(
+                            targets=[clone_ast(target)], value=ast.Constant(value=None)), st))
+                    out = prologue + restructured
+            elif ctxkind == "expr":
                 if tail_e is not None and any(isinstance(x, ast.Call) for x in ast.walk(tail_e)):
                     out.append(ast.copy_location(ast.Expr(value=tail_e), st))
             elif ctxkind == "assign":
@@ -703,9 +797,10 @@ def inline_helpers(repo: Repo, fi: FuncInfo, depth=2, _stack=(), keep=frozenset(
         f = call.func
         if isinstance(f, ast.Attribute) and isinstance(f.value, ast.Name) and selfname and f.value.id == selfname:
             h = repo.lookup_method(fi.cls, f.attr)
-            if h is None or any((ap(d) or "") != "classmethod" for d in h.node.decorator_list):
+            if h is None or any((ap(d) or "") not in ("classmethod", "staticmethod") for d in h.node.decorator_list):
                 return None, 0
-            return (None, 0) if f.attr in keep else (h, 1)
+            static = any((ap(d) or "") == "staticmethod" for d in h.node.decorator_list)
+            return (None, 0) if f.attr in keep else (h, 0 if static else 1)
         if isinstance(f, ast.Attribute) and isinstance(f.value, ast.Name) and fi.cls is not None and f.attr.startswith("_") \
                 and not f.attr.startswith("__") and f.attr not in keep and len(repo.funcs.get(f.attr, [])) == 1:
             # private helper of the same class invoked on another instance (a copy): the name is unique in the tree
@@ -823,6 +918,21 @@ def inline_helpers(repo: Repo, fi: FuncInfo, depth=2, _stack=(), keep=frozenset(
             if rep is not None:
                 out.extend(rep)
                 continue
+            if depth > 0 and isinstance(st, ast.If):
+                # `if helper(..):` / `if not helper(..):` -> tmp = <helper body>; if tmp: ...
+                t = st.test.operand if isinstance(st.test, ast.UnaryOp) and isinstance(st.test.op, ast.Not) else st.test
+                if isinstance(t, ast.Call) and helper_of(t)[0] is not None:
+                    counter[0] += 1
+                    tmp = f"__ifc{len(_stack)}_{counter[0]}"
+                    asg = ast.copy_location(ast.Assign(targets=[ast.Name(id=tmp, ctx=ast.Store())], value=t), st)
+                    rep = try_inline(asg)
+                    if rep is not None:
+                        nm = ast.copy_location(ast.Name(id=tmp, ctx=ast.Load()), t)
+                        if t is st.test:
+                            st.test = nm
+                        else:
+                            st.test.operand = nm
+                        out.extend(rep)
             if not isinstance(st, FUNC_TYPES + (ast.ClassDef,)):
                 for field in ("body", "orelse", "finalbody"):
                     b = getattr(st, field, None)
